@@ -1332,6 +1332,9 @@ func main() {
 		for i := 0; i < n; i++ {
 			emitReserialise(w, seed, i, dir)
 		}
+		for i := 0; i < n/2+8; i++ {
+			emitSign(w, seed, i)
+		}
 		w.Close()
 	case "genjv":
 		var n int
@@ -1368,6 +1371,8 @@ func replay(in map[string]any, dir, repo string) {
 		emitReserialise(w, seed, num("reser_index"), dir)
 	case "fixture":
 		emitFixtures(w, repo)
+	case "sign", "sign-envelope", "sign-verify", "sign-good":
+		emitSign(w, seed, num("sign_index"))
 	case "value":
 		fmt.Printf("value-level case: re-run  c11 genjv  with VERIF_SEED=%d and look at line %d\n", seed, num("index"))
 	}
